@@ -296,8 +296,13 @@ def declared_sizes_too_big(data, cver, max_cont, limit=8 << 20):
 
 
 def layout_params(case):
-    return {"cver": case["cver"], "slot": AR.slot_size(case["cver"]), "memory": case["memory"], "refuse": bool(case.get("refuse")),
-            "explicit": [[im["off"] for im in c["img"]] for c in case["cont"]]}
+    revoked = any(c["srk_set"] != "none" and (c["revoke"] >> c["used"]) & 1 for c in case["cont"])
+    lay = {"cver": case["cver"], "slot": AR.slot_size(case["cver"]), "memory": case["memory"], "refuse": bool(case.get("refuse")) or revoked,
+           "explicit": [[im["off"] for im in c["img"]] for c in case["cont"]], "drift": False, "al": 0, "start": 0, "flat": []}
+    if case.get("gen"):  # a case of AhabLayoutMC: the I clause (documented automatic placement) can be evaluated
+        g = case["gen"]
+        lay.update(drift=True, al=g["al"], start=g["start"], flat=[{"size": x["size"], "gap": x["gap"], "off": x["off"]} for x in g["imgs"]])
+    return lay
 
 
 # ------------------------------------------------------------------ seeded concretisation of abstract cases
@@ -369,3 +374,376 @@ def random_case(r, fams, cid, **over):
         case["cont"].append(c)
     case.update(over)
     return case
+
+
+# ------------------------------------------------------------------ concretisation of the TLC-generated cases
+def fam_for(fams, cver, k):
+    pick = [f for f in fams if cver in f["cvers"]]
+    return pick[k % len(pick)]
+
+
+def plain_image(r, fam, ln, **over):
+    core = r.choice(fam["cores"])
+    typ = r.choice([t for t in core[2] if t[0] != "ele"] or core[2])
+    im = {"len": ln, "ht": 0, "enc": False, "off": 0, "type": [typ[0], typ[1]], "core": [core[0], core[1]], "boot": 0, "meta": [0, 0, 0],
+          "load": 0x1000, "entry": 0x1000, "isa": None, "gap": 0}
+    im.update(over)
+    return im
+
+
+def auth_case(row, fams, k, cid):
+    """One row of AhabRomMC (t = 0): cver, pre, srkSet, used, revoke, kt, nImg, enc, ext -> a real case."""
+    r = rng(PROP, "auth", cid)
+    fam = fam_for(fams, row["cver"], k)
+    case = {"id": cid, "family": fam["family"], "revision": fam["revision"], "memory": MEMORIES[k % 4], "cver": row["cver"], "cvers": fam["cvers"],
+            "max_cont": fam["max_cont"], "max_img": fam["max_img"], "cont": [], "history": False, "tamper": 0, "origin": "AhabRomMC"}
+    if row["pre"]:
+        c = random_container(r, fam, row["cver"], signed=False, last=False)
+        c["img"] = [plain_image(r, fam, r.choice([1, 512, 700]), ht=1)]
+        case["cont"].append(c)
+    signed = row["srkSet"] != 0
+    c = random_container(r, fam, row["cver"], signed=signed, last=True, used=row["used"], revoke=row["revoke"], kt=row["kt"])
+    for j in range(row["nImg"]):
+        im = plain_image(r, fam, r.choice([100, 700, 1000]), ht=2 if j == 0 else 0, boot=r.getrandbits(15), load=r.getrandbits(64))
+        if j == 0 and row["enc"]:
+            im["enc"] = True
+        if j == 0 and row["ext"]:
+            im["isa"] = r.choice([0x300, 0x500, 0x1400])  # the 512-aligned length is not a multiple of the entry alignment
+        c["img"].append(im)
+    if row["enc"]:
+        bits = r.choice([128, 192, 256])
+        c["blob"] = {"bits": bits, "dek": r.randbytes(bits // 8).hex(), "key_id": r.getrandbits(32)}
+    case["cont"].append(c)
+    return case
+
+
+def layout_case(row, fams, k, cid):
+    """One row of AhabLayoutMC: cver, mem, st, refuse, start, al, imgs [{size, gap, off, ci}], placed."""
+    r = rng(PROP, "layout", cid)
+    fam = fam_for(fams, row["cver"], k)
+    # the I clause (Asg) uses the alignment `al` for every image: families with a larger minimal offset alignment would differ
+    case = {"id": cid, "family": fam["family"], "revision": fam["revision"], "memory": row["mem"], "cver": row["cver"], "cvers": fam["cvers"],
+            "max_cont": fam["max_cont"], "max_img": fam["max_img"], "cont": [], "history": True, "tamper": 0, "origin": "AhabLayoutMC",
+            "refuse": bool(row["refuse"]), "gen": row}
+    sal = fam["size_align"]
+    for ci, n in enumerate(row["st"], start=1):
+        c = random_container(r, fam, row["cver"], signed=r.random() < 0.5, last=False)
+        if c["srk_set"] != "none":
+            c["kt"] = "ecc256"
+        for im in [x for x in row["imgs"] if x["ci"] == ci]:
+            size = im["size"]
+            if size % sal == 0:
+                ln, isa = r.randrange(size - sal + 1, size + 1), None
+            else:  # 768 = 0x300: a 512-aligned length extended by the entry alignment
+                ln, isa = r.randrange(1, sal + 1), size
+            c["img"].append(plain_image(r, fam, ln, isa=isa, off=im["off"], gap=im["gap"], ht=r.choice([0, 1, 2])))
+        case["cont"].append(c)
+    return case
+
+
+def tamper_cases(fams, tier, base):
+    """Cases whose exports are tampered with: between them they contain every field class of the tour."""
+    r = rng(PROP, "tamper-cases")
+    n_per = 3 if tier == "quick" else 24
+    out = []
+    specs = [(1, "ecc256", True, True), (1, "rsa2048", False, False), (1, "ecc521", False, True), (2, "ecc384", True, True)]
+    if tier != "quick":
+        specs += [(1, "ecc384", True, False), (1, "rsa4096", False, False), (1, "rsa3072", True, False), (2, "ecc256", False, False), (2, "ecc521", True, True)]
+    for k, (cver, kt, pre, enc) in enumerate(specs):
+        row = {"cver": cver, "pre": pre, "srkSet": 2, "used": (k + 1) % 4, "revoke": 0, "kt": kt, "nImg": 2, "enc": enc, "ext": False}
+        case = auth_case(row, fams, k, base + k)
+        case["cont"][-1]["img"][1]["isa"] = 0x300  # a size-extended plain image next to the encrypted one
+        case["memory"] = "standard"
+        case.update(tamper=n_per, tamper_walks=1 if tier == "quick" else 4, origin="tamper")
+        out.append(case)
+    return out
+
+
+# ------------------------------------------------------------------ deciding
+TRUE_FACTS = {
+    "ContainerHeader": ["tagOk"],
+    "ImageEntry": ["inFile", "hashKnown", "hashOk", "hashPadZero", "flagsRsvZero", "dataOk", "padZero", "ivOk", "decOk"],
+    "SignatureBlock": ["tagOk"],
+    "SrkTable": ["tagOk", "arrTagOk", "arrRsvZero", "recsOk", "sameType", "sizesOk", "recRsvZero", "keysOk", "srkDataTagOk", "dataHashOk", "srkHashOk"],
+    "VerifySignature": ["tagOk", "ok"],
+    "Blob": ["tagOk"],
+    "SpsdkRoundTrip": ["parseOk", "equalObj", "reexportEq", "verifyClean"],
+}
+
+
+def failed_clause(ev):
+    for f in TRUE_FACTS.get(ev.get("ev"), []):
+        if ev.get(f) is False:
+            return f
+    if ev.get("crash"):
+        return f"crash:{ev['crash']}"
+    return "relation"
+
+
+def resolve_refs(traces):
+    idx = {t["id"]: k + 1 for k, t in enumerate(traces)}
+    for t in traces:
+        if t["kind"] == "observe":
+            t["ev"][0]["ref"] = idx.get(t["ref_id"], 0)
+
+
+def decide(v, traces, cases_by_id, stats):
+    """Batch trace validation of the ROM traces; turns TLC's rejections into findings."""
+    resolve_refs(traces)
+    slim = [{"id": t["id"], "exp": t["exp"], "ev": t["ev"]} for t in traces]
+    rej, res = tlc.tv("C06", "AhabRomTrace", slim, heap="8g", timeout=1500)
+    v.traces(len(traces))
+    v.extra["tv_states"] = v.extra.get("tv_states", 0) + res.distinct
+    by_id = {t["id"]: t for t in traces}
+    for t in traces:
+        cid = t["id"].split("/")[0]
+        case = cases_by_id.get(cid)
+        r = rej.get(t["id"])
+        if t["kind"] == "tamper":
+            if r is None:
+                raise Machinery(f"the acceptance automaton accepted a tampered file: {t['id']} (class {t['fcls']})")
+            stats["tamper_rejected"] += 1
+            stats["tamper_classes"].add(t["fcls"])
+            continue
+        if r is None:
+            if t["kind"] == "export" and t["ev"][-1]["ev"] in ("SpsdkRoundTrip", "Accept"):
+                stats["accepted"] += 1
+                v.nontrivial(json.dumps(t["exp"], sort_keys=True))
+            elif t["kind"] == "export":
+                stats["refused_ok"] += 1
+                v.nontrivial(json.dumps(t["exp"], sort_keys=True))
+            elif t["kind"] == "observe":
+                stats["tamper_reported"] += 1
+            continue
+        matched, length, evname = r
+        ev = t["ev"][min(matched, len(t["ev"]) - 1)]
+        wit = {"case": case, "trace": {"id": t["id"], "kind": t["kind"], "exp": t["exp"], "ev": t["ev"]}, "failed_event": matched + 1}
+        if t["kind"] == "observe":
+            if evname == "Resume":
+                continue  # the export itself was not accepted: reported there
+            if evname == "Tamper":
+                raise Machinery(f"tamper position outside the authenticated intervals of the spec: {t['id']}")
+            how = f"crash:{ev['crash']}" if ev.get("crash") else ev.get("how", "clean")
+            v.violation(f"C06/verify/tamper/{t['fcls']}/{how}",
+                        f"{t['id']}: one flipped bit in authenticated field class {t['fcls']} (byte {t['ev'][1]['at']}, bit {t['ev'][1]['bit']}) - SPSDK parse/verify(): {how}", wit)
+            continue
+        if evname == "ExportRefused":
+            v.violation(f"C06/export/refused-valid/{t['cls']}", f"{t['id']}: SPSDK refused to export a valid configuration: {ev.get('msg', '')[-160:]!r}", wit)
+        elif evname == "ExportCrashed":
+            v.violation(f"C06/export/crash:{ev.get('exc')}/{t['cls']}", f"{t['id']}: export raised {ev.get('exc')}: {ev.get('msg', '')[:160]!r}", wit)
+        elif evname == "SpsdkRoundTrip":
+            v.violation(f"C06/verify/valid/{failed_clause(ev)}/{t['cls']}",
+                        f"{t['id']}: the export is accepted by the ROM automaton but SPSDK's own parse / verify() does not agree: {json.dumps(ev)[:300]}", wit)
+        else:
+            clause = failed_clause(ev)
+            if evname == "VerifySignature" and clause == "relation" and (ev.get("key", 0) < 4 and (t["exp"]["cont"][ev.get("ci", 0)]["revoke"] >> ev.get("key", 0)) & 1):
+                clause = "revoked-key-exported"
+            v.violation(f"C06/rom/{evname}/{clause}/{t['cls']}",
+                        f"{t['id']}: event #{matched + 1} ({evname}) of the walk over SPSDK's export is not a step of the acceptance automaton ({clause}): {json.dumps(ev)[:400]}", wit)
+    return rej
+
+
+def decide_layout(v, lays, cases_by_id, stats):
+    if not lays:
+        return
+    rej, res = tlc.tv("C06", "AhabLayoutTrace", lays, env={"MODE": "R"}, heap="8g", timeout=900)
+    v.traces(len(lays))
+    v.extra["tv_states"] = v.extra.get("tv_states", 0) + res.distinct
+    for t in lays:
+        r = rej.get(t["id"])
+        if r is None:
+            stats["layout_ok"] += 1
+            continue
+        matched, length, evname = r
+        case = cases_by_id.get(t["id"].split("/")[0])
+        nth = sum(1 for e in t["ev"][:matched + 1] if e["ev"] == evname)
+        v.violation(f"C06/layout/{evname}#{nth}/{case_class(case) if case else ''}",
+                    f"{t['id']}: projection after event #{matched + 1} ({evname}) breaks a layout clause (slots / explicit kept / no overlap / offsets frozen): "
+                    f"{json.dumps(t['ev'][min(matched, len(t['ev']) - 1)])[:300]}", {"case": case, "trace": t, "failed_event": matched + 1})
+    drift = [t for t in lays if t["lay"].get("drift") and t["id"] not in rej]
+    if drift:
+        rej_i, _ = tlc.tv("C06", "AhabLayoutTrace", drift, env={"MODE": "I"}, heap="8g", timeout=900)
+        stats["ispec_conformant"] = len(drift) - len(rej_i)
+        stats["drift_examples"] = [next(t for t in drift if t["id"] == i) for i in list(rej_i)[:3]]
+
+
+# ------------------------------------------------------------------ the check
+ASSUMPTIONS = [
+    "containers are built from configuration (AHABImage.load_from_config) with SRK set none or oem; NXP-signed containers, binary "
+    "containers, the optional certificate, SM2 / PQC keys and the second (PQC) SRK table are not generated",
+    "explicit image offsets are generated for the first container only (the schema text and the template text disagree whether an "
+    "explicit offset of a later container is relative to the image or to the container) and not for serial_downloader (documented as ignored)",
+    "an encrypted image is not combined with an image_size_alignment that extends the stored size (the property does not say which "
+    "bytes the IV hash covers then)",
+    "replacing the data of an entry after update_fields is not part of the asserted history (the API does not say whether the hash is recomputed)",
+    "the wrapped DEK (blob) is opaque and device bound: only its placement and length are checked; gaps, the blob and the reserved word of "
+    "the signature header are not authenticated bytes; in a container that is not signed only image bytes and their digests are",
+    "tamper: SPSDK's verifier is not run on corrupted files that declare an image of more than 8 MiB (it allocates and hashes that many bytes)",
+    "RSA signatures are RSASSA-PSS / MGF1 with the hash of the SRK record, any salt length; the SRK hash is SHA-256 (version 1) / SHA-512 "
+    "(version 2) over the SRK table as exported",
+]
+
+
+def run(tier):
+    import_spsdk()
+    v = Verdict(PROP, tier)
+    quick = tier == "quick"
+    fams = families()
+    if not fams:
+        raise Machinery("no AHAB family in the database")
+    r = rng(PROP)
+
+    # ---- MC + GEN 1: acceptance automaton with abstract builder and tamper marker
+    acts = ("ContainerHeader", "ImageEntry", "SignatureBlock", "SrkTable", "VerifySignature", "Blob", "ContainerEnd", "Accept", "Emit")
+    mc1 = tlc.mc("C06", "AhabRomMC", "AhabRomMC.cfg", env={"MC_FULL": "0" if quick else "1"}, heap="8g", workers=4, require_actions=acts, timeout=900)
+    v.add_mc(mc1)
+    rows = mc1.json_prints()
+    auth_rows = [x for x in rows if x["cls"] == "none"]
+    tour = {}
+    for x in rows:
+        if x["cls"] != "none":
+            tour.setdefault(x["cls"], set()).add(x["verdict"])
+    if len(auth_rows) < 200 or not tour:
+        raise Machinery(f"AhabRomMC emitted {len(auth_rows)} untampered rows and {len(tour)} region classes")
+    mixed = [c for c, vs in tour.items() if len(vs) != 1]
+    if mixed:
+        raise Machinery(f"region classes with mixed verdicts in the model: {mixed}")
+    must_reject = sorted(c for c, vs in tour.items() if vs == {"Rejected"})
+    pairs = {(x["used"], x["revoke"]) for x in auth_rows if x["srkSet"] != 0}
+    if len(pairs) != 64:
+        raise Machinery(f"the model covers {len(pairs)} used_srk_id x srk_revoke_mask pairs, not 64")
+    say(f"[C06] AhabRomMC: {mc1.distinct} states, {len(auth_rows)} untampered shapes (64 used x revoke pairs), tour over {len(tour)} region classes "
+        f"({len(must_reject)} must be rejected) {v.timer.s()}s")
+
+    # ---- MC + GEN 2: layout rules and update_fields history
+    acts2 = ("Update1", "Export1", "Update2", "Export2", "Parse", "Update3", "Export3", "Emit")
+    mc2 = tlc.mc("C06", "AhabLayoutMC", "AhabLayoutMC.cfg", env={"MC_FULL": "0" if quick else "1"}, heap="8g", workers=4, require_actions=acts2, timeout=900)
+    v.add_mc(mc2)
+    lay_rows = mc2.json_prints()
+    if len(lay_rows) < 100:
+        raise Machinery(f"AhabLayoutMC emitted only {len(lay_rows)} cases")
+    say(f"[C06] AhabLayoutMC: {mc2.distinct} states, {len(lay_rows)} layout cases {v.timer.s()}s")
+
+    # ---- concretise
+    cases = []
+    for k, row in enumerate(auth_rows):
+        cases.append(auth_case(row, fams, k, len(cases)))
+    for k, row in enumerate(lay_rows):
+        cases.append(layout_case(row, fams, k, len(cases)))
+    n_random = 120 if quick else 2500
+    for k in range(n_random):
+        cases.append(random_case(r, fams, len(cases), history=(k % 4 == 0), origin="random"))
+    tc = tamper_cases(fams, tier, len(cases))
+    cases += tc
+    for c in cases:
+        c["id"] = str(c["id"])
+    cases_by_id = {c["id"]: c for c in cases}
+    say(f"[C06] {len(cases)} cases: {len(auth_rows)} from AhabRomMC, {len(lay_rows)} from AhabLayoutMC, {n_random} seeded random, {len(tc)} tamper hosts")
+
+    # ---- canary (before the bulk): one good trace accepted, the same trace with one corrupted field rejected
+    can = build(dict(tc[0], tamper=0, id="canary"))
+    good = next(t for t in can["traces"] if t["kind"] == "export")
+    if good["ev"][-1]["ev"] != "SpsdkRoundTrip":
+        raise Machinery(f"canary export did not build: {good['ev'][-1]}")
+    bad1, bad2, bad3 = (json.loads(json.dumps(good)) for _ in range(3))
+    good["id"], bad1["id"], bad2["id"], bad3["id"] = "canary-good", "canary-bad-hash", "canary-bad-range", "canary-bad-offset"
+    next(e for e in bad1["ev"] if e["ev"] == "ImageEntry")["hashOk"] = False
+    next(e for e in bad2["ev"] if e["ev"] == "VerifySignature")["signedTo"] -= 8
+    next(e for e in bad3["ev"] if e["ev"] == "ContainerHeader" and e["ci"] == 1)["at"] += 1024
+    rej, _ = tlc.tv("C06", "AhabRomTrace", [{"id": t["id"], "exp": t["exp"], "ev": t["ev"]} for t in (good, bad1, bad2, bad3)])
+    if set(rej) != {"canary-bad-hash", "canary-bad-range", "canary-bad-offset"}:
+        raise Machinery(f"canary failed: rejected {sorted(rej)} (expected the three corrupted traces only)")
+    lgood = can["layout"]
+    lbad = json.loads(json.dumps(lgood))
+    lgood["id"], lbad["id"] = "canary-layout-good", "canary-layout-bad"
+    lbad["ev"][-1]["p"]["conts"][0]["img"][0]["off"] += 1024
+    rej, _ = tlc.tv("C06", "AhabLayoutTrace", [lgood, lbad], env={"MODE": "R"})
+    if set(rej) != {"canary-layout-bad"}:
+        raise Machinery(f"layout canary failed: rejected {sorted(rej)}")
+    v.extra["canary"] = "good export trace accepted; hashOk=false / signed range 8 bytes short / container 1 off its slot rejected; moved offset in the history rejected"
+    say(f"[C06] canary ok {v.timer.s()}s")
+
+    # ---- execute on the real code
+    outs = pmap(build, cases, chunksize=2)
+    stats = {"accepted": 0, "refused_ok": 0, "tamper_rejected": 0, "tamper_reported": 0, "tamper_classes": set(), "layout_ok": 0,
+             "ispec_conformant": 0, "drift_examples": []}
+    agg = {}
+    for o in outs:
+        for k2, n in o["stats"].items():
+            agg[k2] = agg.get(k2, 0) + n
+    v.count(agg.get("built", 0) + agg.get("refused", 0) + agg.get("tamper_walks", 0) + agg.get("tamper_obs", 0))
+    say(f"[C06] executed {v.timer.s()}s: {agg}")
+
+    # ---- TLC decides (chunks keep an observer trace together with the export it refers to)
+    chunk, chunks = [], []
+    for o in outs:
+        chunk += o["traces"]
+        if len(chunk) > 6000:
+            chunks.append(chunk)
+            chunk = []
+    if chunk:
+        chunks.append(chunk)
+    for ch in chunks:
+        decide(v, ch, cases_by_id, stats)
+    say(f"[C06] ROM traces decided {v.timer.s()}s: accepted {stats['accepted']}, refused as required {stats['refused_ok']}, "
+        f"tampered walks rejected {stats['tamper_rejected']}, tampering reported by SPSDK {stats['tamper_reported']} of {agg.get('tamper_obs', 0)}")
+    decide_layout(v, [o["layout"] for o in outs if o.get("layout")], cases_by_id, stats)
+    say(f"[C06] layout histories decided {v.timer.s()}s: {stats['layout_ok']} conform, I-spec conformant {stats['ispec_conformant']}")
+
+    # ---- the tour of the model has to be executed: every region class the model rejects was tampered with on real bytes
+    missing = [c for c in must_reject if not any(f == c or f.startswith(c + ".") for f in stats["tamper_classes"])]
+    if missing:
+        raise Machinery(f"region classes of the model without a real tampered walk: {missing} (executed: {sorted(stats['tamper_classes'])})")
+    if stats["accepted"] < len(cases) // 3:
+        raise Machinery(f"only {stats['accepted']} of {len(cases)} cases produced an accepted export")
+
+    for o in outs:
+        for t in o["traces"]:
+            if t["kind"] == "export" and len(t["ev"]) > 6:
+                v.sample({"case": {k2: x for k2, x in o["case"].items() if k2 != "gen"}, "trace": t["ev"][:4] + ["..."] + t["ev"][-2:]}, limit=3)
+                break
+        if len(v.cov["samples"]) >= 3:
+            break
+    obs = next((t for o in outs for t in o["traces"] if t["kind"] == "observe"), None)
+    if obs:
+        v.sample(obs)
+    v.extra.update(tamper_rejected=stats["tamper_rejected"], tamper_classes=sorted(stats["tamper_classes"]), tamper_reported_by_spsdk=stats["tamper_reported"],
+                   tamper_observed=agg.get("tamper_obs", 0), skipped_resource=agg.get("skipped_resource", 0), exports_accepted=stats["accepted"],
+                   exports_refused_as_required=stats["refused_ok"], layout_histories=stats["layout_ok"], ispec_conformant=stats["ispec_conformant"],
+                   drift_examples=stats["drift_examples"], families=[f"{f['family']}/{f['revision']}" for f in fams],
+                   trusted_base="hashlib (SHA-2, SM3 via OpenSSL), cryptography: ECDSA verify, RSA-PSS verify, AES-CBC decrypt - called directly",
+                   checker_cmd="TLC AhabRomMC, AhabLayoutMC (lemmas + case emission); TLC AhabRomTrace, AhabLayoutTrace (decide every trace)")
+    v.cov["rule"] = (
+        f"cases = every untampered shape of AhabRomMC (container version x unsigned pre-container x srk set x all 64 used_srk_id/srk_revoke_mask pairs x "
+        f"key type x image count x encrypted x size-extended) + every case of AhabLayoutMC (structure x target memory x stored size x offset mode x collision) "
+        f"+ {n_random} seeded random cases over all {len(fams)} family/revision pairs of the database (1..max containers, 1..max images, sizes around the "
+        "alignments, image_size_alignment, gaps, core ids, image types, hash types, boot flags, metadata, versions, key types, blobs); every case is built with "
+        "AHABImage.load_from_config/update_fields/export, walked by the executor, observed by SPSDK's own parse/verify; distinct by expectation record; "
+        "non-trivial = the export was accepted by the automaton (or refused where the spec demands a refusal)")
+    v.assumptions += ASSUMPTIONS
+    return v.finish()
+
+
+def replay(path):
+    import_spsdk()
+    w = json.load(open(path))["witness"]
+    case = w["case"]
+    if case is None:
+        raise Machinery("replay file without a case")
+    out = build(case)
+    traces = out["traces"]
+    resolve_refs(traces)
+    rej, _ = tlc.tv("C06", "AhabRomTrace", [{"id": t["id"], "exp": t["exp"], "ev": t["ev"]} for t in traces])
+    bad = {i: x for i, x in rej.items() if next(t for t in traces if t["id"] == i)["kind"] != "tamper"}
+    lrej = {}
+    if out.get("layout"):
+        lrej, _ = tlc.tv("C06", "AhabLayoutTrace", [out["layout"]], env={"MODE": "R"})
+    want = w.get("trace", {}).get("id")
+    hit = {i: x for i, x in list(bad.items()) + list(lrej.items()) if want is None or i == want or i.split("/")[0] == str(want).split("/")[0]}
+    if hit:
+        say(f"VIOLATION property=C06 replay={path}")
+        for i, (m, ln, evn) in hit.items():
+            say(f"  {i}: rejected at event {m + 1} ({evn})")
+        return 1
+    say("replay: every trace of the case is accepted by the spec")
+    return 0
